@@ -57,11 +57,13 @@ fn main() -> ExitCode {
                 skip: opt("--skip")
                     .map(|s| s.split(',').filter_map(|x| x.split_once(':').and_then(|(a, b)| Some((a.parse().ok()?, b.parse().ok()?)))).collect())
                     .unwrap_or_default(),
+                skip_ops: opt("--skip-ops").map(|s| s.split(',').filter_map(|x| x.parse().ok()).collect()).unwrap_or_default(),
                 stop: match (opt("--stop-stage").and_then(|s| s.parse().ok()), opt("--stop-index").and_then(|s| s.parse().ok())) {
                     (Some(a), Some(i)) => Some((a, i)),
                     _ => None,
                 },
             };
+            history::set_skip_ops(&cfg.skip_ops);
             if cmd == "emit-plan" {
                 // the explicit trace of one run of a batch, as JSON (used to turn a Miri stop into a replay file)
                 let arm_id: u64 = opt("--stage").and_then(|s| s.parse().ok()).unwrap_or(0);
